@@ -519,6 +519,10 @@ func GenModel(t *rapid.T, maxTargets int, emit bool) *Model {
 		ns := rapid.SampledFrom([]int{1, 0, 2, 1}).Draw(t, "nsrc")
 		for j := 0; j < ns; j++ {
 			name := fmt.Sprintf("s%d_%d.txt", id, j)
+			if rapid.IntRange(0, 7).Draw(t, "srcnamedliketarget") == 7 {
+				// a source file that has the name of a target (a script "build" next to the target "build")
+				name = fmt.Sprintf("t%d", rapid.IntRange(0, nt-1).Draw(t, "liketarget"))
+			}
 			// sometimes share a source file with an earlier target of the same package
 			if id > 0 && rapid.IntRange(0, 5).Draw(t, "share") == 4 {
 				for o := id - 1; o >= 0; o-- {
@@ -564,7 +568,7 @@ func GenModel(t *rapid.T, maxTargets int, emit bool) *Model {
 			tg.Default = true
 			hasDefault[tg.Pkg] = true
 		}
-		tg.Body = rapid.SampledFrom([]int{0, 1, 2, 3, 4, 5, 6, 7, 8, 9, 5, 9, 10}).Draw(t, "body")
+		tg.Body = rapid.SampledFrom([]int{0, 1, 2, 3, 4, 5, 6, 7, 8, 9, 5, 9, 10, 11}).Draw(t, "body")
 		if tg.Body == 7 && tg.Pkg != 0 {
 			tg.Body = 1 // the flag template lives in the root package only
 		}
